@@ -52,6 +52,22 @@ def _nm(hl):
 # text round-trip
 
 
+def _lower(b):
+    return bytes(c + 32 if 65 <= c <= 90 else c for c in b)
+
+
+def _ref_subdomain(labels, origin_labels):
+    """label-aligned, ASCII-case-insensitive 'at or below' (RFC 1034 3.1), from the label lists"""
+    k = len(origin_labels)
+    return len(labels) >= k and [_lower(l) for l in labels[len(labels) - k:]] == [_lower(l) for l in origin_labels]
+
+
+def _pseudo_suffix(labels, origin_labels):
+    """the name's octets end with the origin's octets although it is not at or below the origin"""
+    enc = lambda ls: b"".join(bytes([len(l)]) + _lower(l) for l in ls)
+    return bool(origin_labels) and not _ref_subdomain(labels, origin_labels) and enc(labels).endswith(enc(origin_labels))
+
+
 def _check_text(labels, origin_labels, clause="text"):
     import dns.exception
     import dns.name
@@ -105,11 +121,18 @@ def _check_text(labels, origin_labels, clause="text"):
             # relativizing drops the origin part, so its spelling comes back as the
             # origin's (names are case-insensitive); the relative part is byte-exact
             want = n.labels
-            if n.is_subdomain(o):
+            sub = _ref_subdomain(list(n.labels), list(o.labels))
+            if sub:
                 want = n.labels[: len(n.labels) - len(o.labels)] + o.labels
             if back.labels != want:
                 raise Violation(clause, f"styled relative text {tr!r} under origin gives {back.labels!r} for {n.labels!r}", "styled-relativize")
-            if n.is_subdomain(o):
+            back2 = dns.tokenizer.Tokenizer(t).get_name(origin=o, relativize=True)
+            want2 = n.labels[: len(n.labels) - len(o.labels)] if sub else n.labels
+            if back2.labels != want2:
+                raise Violation(clause, f"tokenizer relativize of {t!r} under {o.labels!r} gives {back2.labels!r}", "tok-relativize-abs")
+            if _pseudo_suffix(list(n.labels), list(o.labels)):
+                res["classes"].append("pseudo-suffix")
+            if sub:
                 res["classes"].append("relativized-text")
                 if tr == "@":
                     res["classes"].append("at-sign")
@@ -124,6 +147,31 @@ def run_text(case):
     return _check_text(G.unhexl(case["labels"]), None if case["origin"] is None else G.unhexl(case["origin"]))
 
 
+def _fold_origin(draw, origin):
+    """an absolute name that is NOT at or below *origin* but whose octets end with the origin's:
+    the first 1..n origin labels, with their length octets, are folded into the tail of one label"""
+    real = [l for l in origin if l != b""]
+    if not real:
+        return [b"x", b""]
+    j = draw(st.integers(1, len(real)))
+    flip = lambda l: bytes(c ^ 0x20 if (65 <= c <= 90 or 97 <= c <= 122) and draw(st.booleans()) else c for c in l)
+    tail = b"".join(bytes([len(l)]) + flip(l) for l in real[:j])
+    head = draw(st.binary(min_size=1, max_size=3))
+    lab = (head + tail)[-63:]
+    if len(lab) < len(head + tail):
+        # does not fit one label: fall back to folding the first label only when that fits
+        tail = bytes([len(real[0])]) + real[0]
+        j = 1
+        lab = (head + tail)[-63:]
+    pre = [b"www"] if draw(st.booleans()) else []
+    labels = pre + [lab] + [flip(l) for l in real[j:]] + [b""]
+    if W.wire_len(labels) > 255:
+        labels = labels[len(pre):]
+    if W.wire_len(labels) > 255:
+        return [b"x", b""]
+    return labels
+
+
 @st.composite
 def text_cases(draw):
     labels = draw(G.any_name())
@@ -136,6 +184,8 @@ def text_cases(draw):
             while W.wire_len(pre) + W.wire_len(origin) > 255 and pre:
                 pre = pre[1:]
             labels = pre + origin
+        elif draw(st.integers(0, 3)) == 0:
+            labels = _fold_origin(draw, origin)
     return {"labels": G.hexl(labels), "origin": None if origin is None else G.hexl(origin)}
 
 
@@ -372,8 +422,26 @@ def run_ops(case):
     out("concatenate", lambda: a.concatenate(b))
     out("add", lambda: a + b)
     out("concatenate-o", lambda: a.concatenate(o))
-    out("relativize", lambda: a.relativize(o))
-    out("sub", lambda: a - o)
+    rel = out("relativize", lambda: a.relativize(o))
+    sub = out("sub", lambda: a - o)
+    al, ol = list(a.labels), list(o.labels)
+    # at or below needs equal relativity; origins here are absolute
+    is_sub = a.is_absolute() and _ref_subdomain(al, ol)
+    want_rel = tuple(al[: len(al) - len(ol)]) if is_sub else a.labels
+    for what, r in (("relativize", rel), ("sub", sub)):
+        if r is not None and r.labels != want_rel:
+            raise Violation("text", f"{what}: {a.labels!r} against {o.labels!r} gives {r.labels!r}, labels say {want_rel!r}", "relativize-value")
+    if _pseudo_suffix(al, ol):
+        classes.add("pseudo-suffix")
+    for flag in (True, False):
+        r = out("choose_relativity", lambda: a.choose_relativity(o, flag))
+        if r is not None:
+            if flag:
+                want = want_rel
+            else:
+                want = a.labels if a.is_absolute() else None
+            if want is not None and r.labels != want:
+                raise Violation("text", f"choose_relativity({flag}): {a.labels!r} against {o.labels!r} gives {r.labels!r}", "choose_relativity-value")
     out("derelativize", lambda: a.derelativize(o))
     out("choose_relativity-T", lambda: a.choose_relativity(o, True))
     out("choose_relativity-F", lambda: a.choose_relativity(o, False))
@@ -454,6 +522,8 @@ def ops_cases(draw):
         if draw(st.integers(0, 3)) != 0:
             while W.wire_len(a) > 255 and len(a) > len(o):
                 a = a[1:]
+    elif draw(st.integers(0, 4)) == 0:
+        a = _fold_origin(draw, o)
     # boundary final labels for successor/predecessor
     if draw(st.integers(0, 3)) == 0 and a and a[0] != b"":
         c = draw(st.sampled_from(list(b"@AZ[`az{\x00\xff")))
@@ -616,12 +686,12 @@ def decode_cases(draw):
 def parts(tier):
     return [
         Part("text", run_text, strategy=text_cases(), n={"quick": 16000, "thorough": 400000},
-             require={"escape": 200, "relative-under-origin": 100, "relativized-text": 100, "near-limit": 50, "at-sign": 5}),
+             require={"escape": 200, "relative-under-origin": 100, "relativized-text": 100, "near-limit": 50, "at-sign": 5, "pseudo-suffix": 300}),
         Part("octets", run_text, cases=octet_cases, shards={"quick": 4, "thorough": 4}),
         Part("ctx", run_ctx, strategy=ctx_cases(), n={"quick": 4000, "thorough": 120000},
              require={"pointer": 300, "near-0x3fff": 100}),
         Part("ops", run_ops, strategy=ops_cases(), n={"quick": 8000, "thorough": 200000},
-             require={"near-limit": 100, "invalid-raises": 50, "raised:successor": 1, "raised:to_wire": 100}),
+             require={"near-limit": 100, "invalid-raises": 50, "raised:successor": 1, "raised:to_wire": 100, "pseudo-suffix": 150}),
         Part("decode", run_decode, strategy=decode_cases(), n={"quick": 16000, "thorough": 400000}, case_timeout_s=3.0,
              require={"accepted": 500, "rejected": 500, "pointer-followed": 300, "pointer-chain": 30, "ptr-overlap": 20}),
     ]
